@@ -2,7 +2,12 @@
 // ---- context shells (D5): Model/Workbook declared with only the fields the extracted functions touch; every other
 // piece of engine state sits behind an opaque `rest` field.  Diff is the REAL enum; field types no operation here
 // looks into are opaque.
-#[verifier::external_body] pub struct Cell { _o: u8 }
+#[verifier::external_body] pub struct Error { _o: u8 }
+//@type base/src/types.rs FormulaValue
+//@type base/src/types.rs SpillValue
+//@type base/src/types.rs ArrayKind
+//@type base/src/types.rs Cell
+impl Clone for Cell { #[verifier::external_body] fn clone(&self) -> (r: Self) ensures r == *self { unimplemented!() } }
 #[verifier::external_body] pub struct Col { _o: u8 }
 #[verifier::external_body] pub struct Row { _o: u8 }
 #[verifier::external_body] pub struct Style { _o: u8 }
